@@ -647,14 +647,25 @@ class Rules:
                 continue
             if not p:
                 continue
+            if self.rules:
+                # triangularise: a later equality is first rewritten with the earlier rules, so that two hypotheses with the same
+                # leading monomial (e.g. two factorisations of the same tensor) both contribute a rule
+                try:
+                    q = self.reduce(p, max_steps=20000)
+                    if q:
+                        p = q
+                    else:
+                        continue
+                except PolyOverflow:
+                    pass
             lm = max(p, key=_mkey)
             if not lm:
                 continue
             lc = p[lm]
             tail = {m: _num(Fraction(-c) / lc) for m, c in p.items() if m != lm}
-            self.rules.append((lm, tail))
-        for r in self.rules:
-            self.by_first.setdefault(r[0][0], []).append(r)
+            r = (lm, tail)
+            self.rules.append(r)
+            self.by_first.setdefault(lm[0], []).append(r)
 
     def reduce(self, p, max_steps=200000):
         if not self.rules:
